@@ -1683,3 +1683,61 @@ def rule_hook_flag(repo, res):
                             "in which only the repair hook consumed tokens (two value-less parameters in a row, then more statements) ends "
                             "the loop, and the default loader refuses a label it is meant to repair", where=f"pvl/parser.py:{a.lineno}"))
     res.floor("hook results unpacked in parse_module", len(hook_assigns), 1)
+
+
+def rule_mut_default(repo, res, modules=("collections", "parser", "decoder", "encoder", "lexer", "token", "grammar", "__init__", "new")):
+    """MUT-DEFAULT: no function or method of the package has a mutable literal ([], {}, set(), list(), dict()) as a
+    parameter default.  The one object is shared by every call (and every instance): returned to a caller or stored, it is
+    changed by one and seen by all -- `getlist(missing_key)` handing out the same list to every container makes the
+    membership test of every items view depend on what some caller did to that list."""
+    n = 0
+    for mname in modules:
+        if mname not in repo.modules:
+            continue
+        mod = repo.module(mname)
+        fns = [(f"{mname}.{k}", v) for k, v in mod.functions.items()]
+        for cname in mod.classes:
+            if cname in repo.classes:
+                fns += [(f"{cname}.{k}", v) for k, v in repo.classes[cname].methods.items()]
+        for label, fn in fns:
+            defaults = list(fn.args.defaults) + [d for d in fn.args.kw_defaults if d is not None]
+            for d in defaults:
+                n += 1
+                mutable = isinstance(d, (ast.List, ast.Dict, ast.Set, ast.ListComp, ast.DictComp, ast.SetComp)) or \
+                    (isinstance(d, ast.Call) and norm(d.func) in ("list", "dict", "set", "OrderedDict", "collections.OrderedDict", "defaultdict", "bytearray"))
+                if mutable:
+                    res.oblige("MUT-DEFAULT", f"{label}: default `{norm(d, 30)}` is not a mutable object", ok=False)
+                    res.add(Finding("MUT-DEFAULT", label, f"mutable default `{norm(d, 30)}`",
+                                    f"{label} has the mutable default `{norm(d, 40)}`: one object for all calls and all instances; once it is "
+                                    "returned or stored and then changed, every other container, parser or encoder sees the change",
+                                    where=f"pvl/{mname}.py:{d.lineno}"))
+    res.oblige("MUT-DEFAULT", f"{n} parameter defaults examined: none is a mutable literal", ok=True, nontrivial=False)
+    res.floor("parameter defaults examined", n, 40 if len(modules) > 3 else 3)
+
+
+def rule_hook_call(repo, res):
+    """HOOK-CALL: the substitute classes are called the documented way -- positionally: `self.quantity_cls(value, units)`
+    ("any class that takes two arguments, the value first"), `self.real_cls(text)`, `self.modcls()` / `self.grpcls()` /
+    `self.objcls(...)`.  A keyword in the call (`quantity_cls(value=.., units=..)`) works for the bundled class, whose
+    fields happen to have those names, and raises TypeError for every other class (astropy / pint quantities, a function)
+    -- an exception that escapes the loader."""
+    HOOKS = ("quantity_cls", "real_cls", "modcls", "grpcls", "objcls")
+    n = 0
+    for mname in ("decoder", "parser", "encoder"):
+        mod = repo.module(mname)
+        for cname in mod.classes:
+            if cname not in repo.classes:
+                continue
+            for meth, fn in repo.classes[cname].methods.items():
+                for call in [x for x in ast.walk(fn) if isinstance(x, ast.Call) and isinstance(x.func, ast.Attribute)
+                             and x.func.attr in HOOKS and norm(x.func.value) in ("self", "self.decoder")]:
+                    n += 1
+                    kws = [k.arg for k in call.keywords]
+                    ok = not kws
+                    res.oblige("HOOK-CALL", f"{cname}.{meth}: `{norm(call, 60)}` passes its arguments positionally", ok=ok)
+                    if not ok:
+                        res.add(Finding("HOOK-CALL", f"{cname}.{meth}", f"`{norm(call, 60)}` with keywords {kws}",
+                                        f"{cname}.{meth} calls the caller's class as `{norm(call, 80)}`: the documented contract is "
+                                        "positional; a substitute class whose parameters are named differently raises TypeError, which "
+                                        "is neither LexerError nor ParseError and escapes the loader", where=f"pvl/{mname}.py:{call.lineno}"))
+    res.floor("calls of the substitute-class hooks", n, 4)
